@@ -69,6 +69,8 @@ func GenRPC(rng *rand.Rand, id string, o ScriptOpts) *RPCSpec {
 		ret.Msg = utf8Samples[rng.Intn(len(utf8Samples))]
 		ret.Details = rng.Intn(4)
 	}
+	// one RPC in six is received the way a schema-agnostic relay receives (see RPCSpec.Relay)
+	spec.Relay = rng.Intn(6) == 0
 	var hpre, hpost []Op
 	if o.Meta {
 		spec.ReqMD = genMD(rng, "req")
